@@ -35,7 +35,7 @@ CHECKS["C13"] = ("exploration",
     "Trusted: the brute-force judge inside the executor (adjacency matrix drawn by the generator itself).")
 CHECKS["C14"] = ("exploration",
     "runtime monitoring: real package_composite_buildpack on generated composite buildpacks; the written package.toml is read by an independent TOML parser and compared with a reference normaliser (posixpath)",
-    "Generated package.toml files mix libcnb:, relative (with '.', '..', '//', trailing '/', climbing above '/'), absolute, docker, http(s), urn and file URIs in any order and multiplicity (incl. duplicates that collapse after normalisation), all [platform] variants, several source depths, ids that differ only by a trailing '/', complete id->path maps or maps missing exactly one referenced id; output must parse, keep count and order, map each kind as the statement says, preserve buildpack.uri/platform, and be readable by libcnb again; a missing id must be an error with no package.toml written.",
+    "Generated package.toml files mix libcnb:, relative (with '.', '..', '//', trailing '/', climbing above '/'), absolute, docker, http(s), urn and file URIs in any order and multiplicity (incl. duplicates that collapse after normalisation), all [platform] variants, several source depths, ids that differ only by a trailing '/', complete id->path maps or maps missing exactly one referenced id, destinations that already hold a longer package.toml; output must parse, keep count and order, map each kind as the statement says, preserve buildpack.uri/platform, and be readable by libcnb again; a missing id must be an error with no package.toml written.",
     "Trusted: tools/c14.py reference (posixpath.normpath/join) and tomllib. One open known finding (scheme lower-casing) is listed in KNOWN_FINDINGS.txt.")
 CHECKS["C18"] = ("exploration",
     "runtime monitoring: real Inventory::resolve / partial_resolve over an exhaustively enumerated inventory x query space judged by brute-force maximality, plus checksum / TOML round-trip monitors judged by an independent recogniser and tomllib",
@@ -43,7 +43,7 @@ CHECKS["C18"] = ("exploration",
     "Trusted: the brute-force judge inside the executor, rec_checksum in tools/c18.py, tomllib.")
 CHECKS["C19"] = ("exploration",
     "runtime monitoring: real output_and_write_streams / spawn_and_write_streams on a scripted child under concurrent load with recording writers and a /proc-based deadlock diagnosis; writers enumerated over all strings x all chunkings against an independent segment model",
-    "Streams: (a quarter of the runs use line_mapped(prefix) writers, whose output must be every line prefixed exactly once however the lines were split across pipe reads) a scripted child writes checkable byte sequences (0 to 4 pipe buffers, one stream first, alternating, simultaneous from two threads, delays, early close, exit codes) while 24 instances run concurrently; recording / slow / partial-write writers; both the writers and Output must hold exactly the child's bytes per stream, status must match; a run that does not return within 10 s is a violation only if /proc shows the child blocked writing a pipe that no parent thread reads with no progress over 3 s, else inconclusive. Writers: every string over {marker, other} up to length 11 (quick) / 13 (thorough) x every split into write calls through line_mapped+drop, line_mapped with flush() after every write, mapped+unwrap, tee with partial-write targets and stacked combinations.",
+    "Streams: (a quarter of the runs use line_mapped(prefix) writers, whose output must be every line prefixed exactly once however the lines were split across pipe reads) a scripted child writes checkable byte sequences (0 to 4 pipe buffers, one stream first, alternating, simultaneous from two threads, delays, early close, exit codes) while 24 instances run concurrently; recording / slow / partial-write writers; both the writers and Output must hold exactly the child's bytes per stream, status must match; a run that does not return within 10 s is a violation only if /proc shows the child blocked writing a pipe that no parent thread reads with no progress over 3 s, else inconclusive. Writers: every string over {marker, other} up to length 11 (quick) / 13 (thorough) x every split into write calls through line_mapped+drop, line_mapped with flush() after every write, mapped+unwrap, tee with partial-write targets and stacked combinations; plus long-segment cases (lines of 64 KiB to 1 MB split at arbitrary points).",
     "Trusted: the segment model in the executor; /proc/<pid>/task/*/syscall as deadlock evidence. Liveness is restated as bounded progress.")
 
 CHECKS["C07"] = ("exploration",
@@ -57,11 +57,11 @@ CHECKS["C08"] = ("exploration",
 
 CHECKS["C01"] = ("exploration",
     "runtime monitoring: build histories (cached_layer / uncached_layer with scripted callbacks, LayerRef writes, simulated cache restores) executed against the real BuildContext; after every step the reported state, the callback log and a full snapshot of <layers> are judged by an independent state-machine model",
-    "All histories of length <=3 (quick) / <=4 (thorough) over a 15-symbol alphabet (generic/typed metadata x keep/delete/replace/error decisions, uncached, the five kinds of writes, restore, a second dotted-name layer) (thorough: length <=5) plus 1500 / 8000 random histories of up to 30 / 60 steps over three layer names; metadata incl. tables that parse as the typed metadata but carry extra keys; env values incl. non-UTF-8 bytes. After each request: state+cause must equal what the scripted callbacks decided, callbacks must have run exactly once when due and with the on-disk metadata and path, the layer dir and <layer>.toml must exist with exactly the requested build/launch/cache flags, Restored must keep files/env/exec.d/SBOMs/metadata byte-for-byte, Empty must leave no file, metadata or SBOM, other layers and the rest of <layers> must be byte-identical; every LayerRef write is checked for exact replace semantics.",
+    "All histories of length <=3 (quick) / <=4 (thorough) over a 15-symbol alphabet (generic/typed metadata x keep/delete/replace/error decisions, uncached, the five kinds of writes, restore, a second dotted-name layer) (thorough: length <=5) plus 1500 / 8000 random histories of up to 30 / 60 steps over three layer names; metadata incl. tables that parse as the typed metadata but carry extra keys; env values incl. non-UTF-8 bytes. After each request: state+cause must equal what the scripted callbacks decided, callbacks must have run exactly once when due and with the on-disk metadata and path, the layer dir and <layer>.toml must exist with exactly the requested build/launch/cache flags, Restored must keep files/env/exec.d/SBOMs/metadata byte-for-byte, Empty must leave no file, metadata or SBOM, other layers and the rest of <layers> must be byte-identical; every LayerRef write is checked for exact replace semantics. An executor process that dies inside a library call (stack overflow, abort) is a violation with the history as witness.",
     "Trusted: the model in tools/c01.py and the restore rules in tools/layersim.py (those named in the quantifier). One defect found here was repaired (fix: c482b5b).")
 CHECKS["C02"] = ("exploration",
     "runtime monitoring: handle_layer histories with scripted Layer implementations (two metadata types, all strategy / migration decisions, failing callbacks, arbitrary results) against the real BuildContext; callback log, snapshot and returned LayerData judged by an independent model",
-    "All histories of length <=3 / <=5 over an 11-symbol alphabet plus 1200 / 6000 random histories with restores (env values incl. non-UTF-8 bytes). Checked per call: exactly the expected callback sequence (create only on an empty directory; strategy / update / migrate exactly once when due, never otherwise), callbacks see the on-disk metadata, callback errors surface as the buildpack error; afterwards types = types(), metadata / env for all four scopes incl. per-process / exec.d / SBOM files equal the returned result (or, for keep, the previous snapshot with only types refreshed), other files as the callback left them, other layers untouched; the returned LayerData (name, path, types, metadata, env probed for 6 scopes x 2 starting envs) must behave like an independent reading of the disk.",
+    "All histories of length <=3 / <=5 over an 11-symbol alphabet plus 1200 / 6000 random histories with restores (env values incl. non-UTF-8 bytes). Checked per call: exactly the expected callback sequence (create only on an empty directory; strategy / update / migrate exactly once when due, never otherwise), callbacks see the on-disk metadata, callback errors surface as the buildpack error; afterwards types = types(), metadata / env for all four scopes incl. per-process / exec.d / SBOM files equal the returned result (or, for keep, the previous snapshot with only types refreshed), other files as the callback left them, other layers untouched; the returned LayerData (name, path, types, metadata, env probed for 6 scopes x 2 starting envs) must behave like an independent reading of the disk. Callbacks also plant symlinks (dangling, to files, to directories, loops) in the layer; an executor process that dies inside a library call is a violation.",
     "Trusted: the model in tools/c02.py, tools/envmodel.py. One defect found here was repaired (fix: 57bd66a).")
 
 CHECKS["C05"] = ("exploration",
@@ -75,7 +75,7 @@ CHECKS["C06"] = ("exploration",
 
 CHECKS["C20"] = ("exploration",
     "runtime monitoring: paired (tripled) executions in fresh processes under different work-dir roots; per-step directory snapshots compared byte for byte",
-    "The history generators of C01 and C02 (with widened payloads: 12-key metadata tables incl. nested ones, 8 per-process env dirs, full exec.d sets) and detect+build phase scenarios (3 or-groups x 8 provides/requires with 12-key metadata, 12 labels with duplicated keys in random order, 6 processes, 13+12-key store, all SBOM kinds; two different SBOM documents of one format; values derived from read_env().apply() written into layer metadata, with several behaviours on one variable) each run in three fresh OS processes (fresh RandomState seeds, different PIDs/times, roots of different length and depth); <layers>, the build plan, launch.toml, store.toml, <layer>.toml, env files, exec.d and SBOM files must be byte-identical after every step.",
+    "The history generators of C01 and C02 (with widened payloads: 12-key metadata tables incl. nested ones, 8 per-process env dirs, full exec.d sets) and detect+build phase scenarios (3 or-groups x 8 provides/requires with 12-key metadata, 12 labels with duplicated keys in random order, 6 processes, 13+12-key store, all SBOM kinds; two different SBOM documents of one format; values derived from read_env().apply() written into layer metadata, with several behaviours on one variable; exec.d sets re-arranged from their own files; metadata and store tables fed from a std HashMap) each run in three fresh OS processes (fresh RandomState seeds, different PIDs/times, roots of different length and depth); <layers>, the build plan, launch.toml, store.toml, <layer>.toml, env files, exec.d and SBOM files must be byte-identical after every step.",
     "Trusted: snapshot comparison only. A leak of hash order over >=8 keys would show with probability > 0.999 per scenario.")
 
 CHECKS["C11"] = ("exploration",
@@ -84,12 +84,12 @@ CHECKS["C11"] = ("exploration",
     "Trusted: shim/fsshim.c (physical target = realpath(dirname)/basename for entry-acting calls, realpath(path) for link-following ones), vp.snapshot. Needs setpriv to drop to uid 65534 (else inconclusive). One defect found here was repaired (fix: 74147eb).")
 CHECKS["C12"] = ("fault_enumeration",
     "runtime monitoring with fault injection: for 17 representative layer / runtime operations a count pass records the sequence of libc file-system calls beneath the work prefix, then the operation is re-run once per call position with that call failing (LD_PRELOAD k-th-call injector); result and directory snapshot are compared with the fault-free run",
-    "Operations: cached_layer on nothing / keep / delete (nested tree) / invalid-metadata replace, uncached_layer over an existing layer, write_metadata, write_env over an old env with per-process scopes, write_sboms and write_exec_d_programs over old ones, handle_layer create / keep / update / recreate / migrate-replace with full results, and the real runtime as detect (pass+plan) and build (launch+store+SBOMs; with pre-existing longer outputs). Every position k of open (read/write/dir), read, write, mkdir, unlink, rmdir, rename, chmod, readdir, truncate calls x errno EIO, EACCES (quick) / EIO, EACCES, ENOSPC, EPERM, EROFS (thorough). exec.d sources are executables, so a swallowed chmod failure shows as a mode difference. A fired fault followed by success is a violation unless the whole work tree is byte-identical to the fault-free run; a fault that never fires is inconclusive.",
+    "Operations: cached_layer on nothing / keep / delete (nested tree) / invalid-metadata replace, uncached_layer over an existing layer, write_metadata, write_env over an old env with per-process scopes, write_sboms and write_exec_d_programs over old ones, handle_layer create / keep / update / recreate / migrate-replace with full results, and the real runtime as detect (pass+plan) and build (launch+store+SBOMs; with pre-existing longer outputs). Every position k of open (read/write/dir), read, write, mkdir, unlink, rmdir, rename, chmod, readdir, truncate calls x errno EIO, EACCES (quick) / EIO, EACCES, ENOSPC, EPERM, EROFS (thorough). exec.d sources are executables, so a swallowed chmod failure shows as a mode difference. Faults are also injected at random positions inside random multi-step histories (a later step runs on whatever the failed one left behind). A process that dies inside the operation is a violation. A fired fault followed by success is a violation unless the whole work tree is byte-identical to the fault-free run; a fault that never fires is inconclusive.",
     "Trusted: shim/fsshim.c. The scripted callbacks' own file operations are excluded from injection (vp_shim_pause). stat-family calls and ENOENT are never injected.")
 
 CHECKS["C15"] = ("fault_enumeration",
     "runtime monitoring with crash injection: the real cargo-libcnb executable (built from /repo) packages generated Cargo workspaces; exit status, stdout and the package tree are judged against a written-out specification and against the tree of a clean run; interrupted runs are produced by killing the process at its k-th mutating libc call beneath the package directory (LD_PRELOAD)",
-    "Generated workspaces: 1-4 dependency-free libcnb.rs buildpack crates with 0-2 additional binary targets (unique names, or one name shared by several crates), 0-2 composites whose package.toml mixes libcnb:/path/docker/urn dependencies forming a DAG (also on other composites), buildpacks nested beneath a composite's directory, a foreign non-libcnb buildpack, an ignore file; composites with [platform] os = windows and buildpack uri './'. Invocations: workspace root, each buildpack directory, directories that are no buildpack (with and without buildpacks below), dev/release, default/relative/absolute --package-dir. Checked per run: exit status, stdout = exactly the selected buildpacks' directories, each output dir holds exactly buildpack.toml (byte-identical), bin/build (byte-identical to the cargo artifact), bin/detect -> build, .libcnb-cargo/additional-bin/<target>, package.toml (normalised per the C14 oracle) and nothing else. Histories: clean; 9 kinds of stale/foreign content planted in an output dir; every (quick: up to 24 per workspace) crash point followed by a normal re-run, whose tree must equal the clean one.",
+    "Generated workspaces: 1-4 dependency-free libcnb.rs buildpack crates with 0-2 additional binary targets (unique names, or one name shared by several crates), 0-2 composites whose package.toml mixes libcnb:/path/docker/urn dependencies forming a DAG (also on other composites), buildpacks nested beneath a composite's directory, a foreign non-libcnb buildpack, an ignore file; composites with [platform] os = windows and buildpack uri './'. Invocations: workspace root, each buildpack directory, directories that are no buildpack (with and without buildpacks below), dev/release, default/relative/absolute --package-dir. Checked per run: exit status, stdout = exactly the selected buildpacks' directories, each output dir holds exactly buildpack.toml (byte-identical), bin/build (byte-identical to the cargo artifact), bin/detect -> build, .libcnb-cargo/additional-bin/<target>, package.toml (normalised per the C14 oracle) and nothing else. A crate whose single binary target is not named after the package; output directories that are dangling or live symlinks. Histories: clean; stale/foreign content of several kinds planted in an output dir; every (quick: up to 24 per workspace) crash point followed by a normal re-run, whose tree must equal the clean one.",
     "Trusted: the tree specification in tools/c15.py, shim/fsshim.c. Only --target x86_64-unknown-linux-gnu can be built here; runs as root (undeletable stale content not explored).")
 
 CHECKS["C16"] = ("fault_enumeration",
@@ -98,7 +98,7 @@ CHECKS["C16"] = ("fault_enumeration",
     "Trusted: tools/testrun.py parsers, harness vpstandin. Stand-ins implement argument grammar and exit behaviour only; no real docker/pack. Two simultaneous faults are outside the quantifier.")
 CHECKS["C17"] = ("exploration",
     "runtime monitoring: generated BuildConfig / ContainerConfig values driven through the real TestRunner; the argv recorded by the docker/pack stand-ins is decoded by reference parsers written from the CLIs' own option grammars (pflag; docker run/exec non-interspersed) and compared with the configuration",
-    "Generated configurations with hostile strings (leading - and --, option look-alikes such as --name=evil, spaces, '=' in values, quotes, $, backticks, Unicode, empty, tab, newline) for builder, env values, entrypoint, command vectors, buildpack references (incl. duplicates), shell commands; random port and bind-mount sets; relative / dotted / absolute app dirs; preprocessors that add and remove files. Decoding must give exactly one pack build with the image name, builder, --path = the fixture itself or a private copy whose content = fixture + preprocessor edits (fixture untouched), buildpacks in configured order, each env pair once; and for docker run the name, detach/rm, platform, entrypoint, env map, publish set 127.0.0.1::<p>, mounts, IMAGE and command; run_shell_command and shell_exec arrive as single arguments; 40% of the cases rebuild with the first build's own configuration (ctx.config.clone()) and a non-idempotent preprocessor: the second pack build must see a fresh private copy with the edits applied once. Buildpack references include dot-relative paths that exist / do not exist under the crate. Any argv that does not parse under the target grammar is a violation.",
+    "Generated configurations with hostile strings (leading - and --, option look-alikes such as --name=evil, spaces, '=' in values, quotes, $, backticks, Unicode, empty, tab, newline) for builder, env values, entrypoint, command vectors, buildpack references (incl. duplicates), shell commands; random port and bind-mount sets; relative / dotted / absolute app dirs; preprocessors that add and remove files. Decoding must give exactly one pack build with the image name, builder, --path = the fixture itself or a private copy whose content = fixture + preprocessor edits (fixture untouched), buildpacks in configured order, each env pair once; and for docker run the name, detach/rm, platform, entrypoint, env map, publish set 127.0.0.1::<p>, mounts, IMAGE and command; run_shell_command and shell_exec arrive as single arguments; 40% of the cases rebuild with the first build's own configuration (ctx.config.clone()) and a non-idempotent preprocessor: the second pack build must see a fresh private copy with the edits applied once. Buildpack references include dot-relative paths that exist / do not exist under the crate; app dirs reached as link/../app are compared physically; a failing pack build must be invoked exactly once per build request (no silent retry). Any argv that does not parse under the target grammar is a violation.",
     "Trusted: the reference parsers in tools/testrun.py. Not generated (the target grammars give them meaning): '=' in env keys, ',' and '\"' in mount paths and buildpack references.")
 
 PENDING = {}
